@@ -219,6 +219,10 @@ func (r *testResults) assert(
 func (r *testResults) recordSideband(testCase string, errMsg string) {
 	r.mu.Lock()
 	defer r.mu.Unlock()
+	if prev, ok := r.serverSideband[testCase]; ok {
+		// A test case may get several messages: keep them all.
+		errMsg = prev + "; " + errMsg
+	}
 	r.serverSideband[testCase] = errMsg
 }
 
